@@ -145,7 +145,45 @@ impl Default for UptimeTracker {
     }
 }
 
+#[cfg(feature = "verif-hooks")]
+pub mod verif_hooks {
+    //! Injected clock for verification harnesses: a per-thread script of millisecond
+    //! readings (one consumed per call), else a process-wide frozen value, else the real clock.
+    use std::cell::RefCell;
+    use std::collections::VecDeque;
+    use std::sync::atomic::{AtomicU64, Ordering};
+
+    thread_local! {
+        static SCRIPT: RefCell<Option<VecDeque<u64>>> = const { RefCell::new(None) };
+    }
+    static FROZEN: AtomicU64 = AtomicU64::new(u64::MAX);
+
+    pub fn set_thread_clock_script(readings: Vec<u64>) {
+        SCRIPT.with(|s| *s.borrow_mut() = Some(readings.into()));
+    }
+    pub fn clear_thread_clock() {
+        SCRIPT.with(|s| *s.borrow_mut() = None);
+    }
+    pub fn set_frozen_clock(ms: Option<u64>) {
+        FROZEN.store(ms.unwrap_or(u64::MAX), Ordering::SeqCst);
+    }
+    pub(super) fn read() -> Option<u64> {
+        let scripted = SCRIPT.with(|s| s.borrow_mut().as_mut().map(|q| q.pop_front().unwrap_or(0)));
+        if scripted.is_some() {
+            return scripted;
+        }
+        match FROZEN.load(Ordering::SeqCst) {
+            u64::MAX => None,
+            ms => Some(ms),
+        }
+    }
+}
+
 fn get_unix_time_ms() -> Option<u64> {
+    #[cfg(feature = "verif-hooks")]
+    if let Some(ms) = verif_hooks::read() {
+        return Some(ms);
+    }
     let now = SystemTime::now();
     now.duration_since(UNIX_EPOCH)
         .ok()
